@@ -2,7 +2,6 @@ package main
 
 import "golang.org/x/tools/go/packages"
 
-func genConversions(p *packages.Package)               {}
 func genVint(p *packages.Package)                      {}
 func genDeepCopy(pkgs map[string]*packages.Package)    {}
 func genEffects(pkgs map[string]*packages.Package)     {}
